@@ -28,6 +28,8 @@ def main(argv):
         return 2
     seed = int(os.environ.get("VERIF_SEED", "1"))
     spec = PROPS[prop]
+    # every check builds its own copy of the harness tools (checks may overlap in time)
+    C.BIN = os.path.join(C.VERIF, "bin", prop)
     ctx = Ctx(prop, args.tier, seed)
     t0 = time.time()
     shutil.rmtree(ctx.workdir, ignore_errors=True)
